@@ -494,3 +494,54 @@ func C18(run *core.Run) {
 	run.Set("distinct_nontrivial", distinct.Len())
 	run.Assume = append(run.Assume, "an id that was seen but has fallen out of the window may be forwarded or suppressed (the property leaves it open)")
 }
+
+
+// quotaThroughNIP11: the chain BuildMiddlewareFromNIP11 builds with max_subscriptions (plus
+// max_filters / max_limit) behaves like the Quota specification: sampled histories, decisions
+// taken from the relation TLC exports from Quota.tla.
+func quotaThroughNIP11(run *core.Run, conc *abs.Conc, nHist, length int, purpose string) {
+	qrel := map[string]quotaEdge{}
+	res, err := tlcrun.Run(tlcrun.Options{Module: "Quota", Config: "Quota.cfg", Workers: 1, Timeout: 10 * time.Minute,
+		OnJSON: func(line string) {
+			var e quotaEdge
+			if json.Unmarshal([]byte(line), &e) == nil {
+				qrel[fmt.Sprintf("%d|%s|%s|%s", e.N, setKey(e.S), e.A, e.X)] = e
+			}
+		}})
+	if err != nil || !res.OK || len(qrel) == 0 {
+		run.Problem("TLC failed on Quota: %v", err)
+		return
+	}
+	run.Add("states", res.Distinct)
+	run.Add("transitions", res.Generated)
+	actions := []string{"REQ a", "REQ b", "REQ c", "REQ d", "CLOSE a", "CLOSE b", "CLOSE c", "REQX a", "REQX b", "REQX d"}
+	for n := 1; n <= 3; n++ {
+		h := mocrelay.BuildMiddlewareFromNIP11(&mocrelay.NIP11{Limitation: &mocrelay.NIP11Limitation{MaxSubscriptions: n, MaxFilters: 2, MaxLimit: 100}})(echoHandler{conc})
+		r := run.Rand(fmt.Sprint(purpose, n))
+		for i := 0; i < nHist; i++ {
+			ss := newStepSession(h)
+			open := []string{}
+			var p []string
+			for k := 0; k < length; k++ {
+				a := actions[r.Intn(len(actions))]
+				p = append(p, a)
+				parts := strings.SplitN(a, " ", 2)
+				fwd, err := quotaStep(ss, parts[0], parts[1])
+				run.Add("sessions", 1)
+				e, ok := qrel[fmt.Sprintf("%d|%s|%s|%s", n, setKey(open), parts[0], parts[1])]
+				if !ok {
+					run.Problem("state not in the exported Quota relation: %v", open)
+					break
+				}
+				if err != nil || fwd != e.Fwd {
+					run.Violate(fmt.Sprintf("nip11-quota:N=%d open=%d %s expected fwd=%v got fwd=%v err=%v", n, len(open), parts[0], e.Fwd, fwd, err != nil),
+						fmt.Sprintf("NIP-11 chain max_subscriptions=%d max_filters=2: history %v step %d: specification forwards=%v, observed %v (%v)", n, p, k, e.Fwd, fwd, err),
+						map[string]any{"n": n, "history": p})
+					break
+				}
+				open = e.T
+			}
+			ss.close()
+		}
+	}
+}
